@@ -116,9 +116,43 @@ pub fn run(job: &Value, t: &mut Trace) -> usize {
 }
 
 /// Exhaustive grid binding of the residual writer / reader (C01, PartitionLayout)
-pub fn run_residuals(job: &Value, t: &mut Trace) -> usize {
+/// The residual reader alone over hand-made partition headers: coding method 0, the given partition order, and 2^po escaped
+/// partitions of width 0 (9 bits each, no residual bits whatever their length) - so acceptance depends on the layout rules only.
+fn run_raw_layouts(job: &Value, t: &mut Trace) -> usize {
     let mut n = 0;
-    let list = |k: &str| -> Vec<u64> { job[k].as_array().unwrap().iter().map(|x| x.as_u64().unwrap()).collect() };
+    let max_bs = job["raw_max_bs"].as_u64().unwrap_or(0);
+    for bs in 1..=max_bs {
+        for order in 0..=bs.min(32) {
+            for po in 0..=8u32 {
+                let mut bits: Vec<u8> = vec![0, 0];
+                for k in (0..4).rev() {
+                    bits.push(((po >> k) & 1) as u8);
+                }
+                for _ in 0..(1u32 << po) {
+                    bits.extend_from_slice(&[1, 1, 1, 1, 0, 0, 0, 0, 0]);
+                }
+                while bits.len() % 8 != 0 {
+                    bits.push(0);
+                }
+                let mut bytes: Vec<u8> = bits.chunks(8).map(|c| c.iter().fold(0u8, |a, b| (a << 1) | b)).collect();
+                bytes.extend_from_slice(&[0u8; 8]);
+                let len = (bs - order) as usize;
+                let (rret, zero, msg) = match catch(|| flac_codec::decode::verif::read_residuals(&bytes, order as usize, len)) {
+                    Ok(Ok(v)) => ("ok", v.len() == len && v.iter().all(|x| *x == 0), String::new()),
+                    Ok(Err(e)) => ("err", false, e.to_string()),
+                    Err(c) => ("panic", false, format!("read: {} @{}", c.msg, c.loc)),
+                };
+                t.emit(json!({"ev": "rawres", "bs": bs as i64, "order": order as i64, "po": po as i64, "rret": rret, "allzero": zero, "msg": msg}));
+                n += 1;
+            }
+        }
+    }
+    n
+}
+
+pub fn run_residuals(job: &Value, t: &mut Trace) -> usize {
+    let mut n = run_raw_layouts(job, t);
+    let list = |k: &str| -> Vec<u64> { job[k].as_array().map(|a| a.iter().map(|x| x.as_u64().unwrap()).collect()).unwrap_or_default() };
     let sizes = list("sizes");
     let maxpos = list("maxpos");
     let max_order = job["max_order"].as_u64().unwrap_or(32);
